@@ -71,6 +71,9 @@ Inductive step :=
 | SUtIop (neg : bool) (x : nat) (o : operand)        (* x += o / x -= o      UniformTime *)
 | SUtImul (x : nat) (o : operand)                    (* x *= o *)
 | SCopy (x : nat)                                    (* r = x.copy() *)
+| SDerive (k : option Z) (x : nat)                   (* r derived from x through numpy: Some k = own buffer,
+                                                        values shifted by k (x + 0, x - 1, copy.copy, deepcopy,
+                                                        np.copy(subok=True)); None = a view (x[:], x.view()) *)
 | STsOp (f : fop) (x : nat) (o : operand)            (* r = x `f` o          TimeSeries *)
 | STsIop (f : fop) (x : nat) (o : operand)           (* x `f`= o *)
 | SCsd (x : nat) (k : option nat) (N : option Z)     (* periodogram_csd(x, Sk=k, NFFT=N), result dropped *)
@@ -99,6 +102,16 @@ Definition copy_any (x : loc) : M loc :=
   | _ => raise EAttr
   end.
 
+(* deriving dispatches on the class: arrays through numpy, a series only by deepcopy (= a full copy) *)
+Definition derive_any (k : option Z) (x : loc) : M loc :=
+  c <- read x ;;
+  match c, k with
+  | CArr _ _ _, Some z => np_derive (map (Z.add z)) x
+  | CArr _ _ _, None => view_of x
+  | CSeries _ _ _ _, Some _ => ts_copy x
+  | _, _ => raise EAttr
+  end.
+
 Definition series_data (x : loc) : M loc :=
   c <- read x ;; match c with CSeries d _ _ _ => ret d | _ => raise EAttr end.
 
@@ -116,6 +129,7 @@ Definition run_step (env : list loc) (st : step) : M (option loc) :=
   | SUtIop neg x o => with2 x o (fun l v => lift (ut_iop (if neg then (-1)%Z else 1%Z) l v))
   | SUtImul x o => with2 x o (fun l v => lift (ut_imul l v))
   | SCopy x => with1 x (fun l => liftl (copy_any l))
+  | SDerive k x => with1 x (fun l => liftl (derive_any k l))
   | STsOp f x o => with2 x o (fun l v => liftl (ts_binop (fop_fn f) l v))
   | STsIop f x o => with2 x o (fun l v => lift (ts_iop (fop_fn f) l v))
   | SCsd x k N =>
